@@ -165,6 +165,9 @@ def check(mod, tier: str, seed: int, *, replay: str | None = None) -> int:
         # ---------------------------------------------------------------- coverage obligations
         missing = list(verdict.get("missing", []))
         missing += [r for r in getattr(mod, "REQUIRED", []) if r not in verdict.get("seen", [])]
+        verify = getattr(mod, "verify", None)
+        if verify:
+            missing += list(verify(tier, verdict))
         # ---------------------------------------------------------------- evidence
         keys = {}
         nontrivial = 0
